@@ -209,7 +209,12 @@ func cmdCheck(args []string) int {
 	for _, h := range hs {
 		if failfast {
 			mu.Lock()
-			nv := len(viols)
+			nv := 0
+			for _, vr := range viols {
+				if matchKnown(known, id, vr.v) == nil { // listed known findings do not end the run
+					nv++
+				}
+			}
 			mu.Unlock()
 			if nv > 0 {
 				fmt.Println("  (fail-fast: remaining harnesses skipped)")
